@@ -100,6 +100,11 @@ pub fn cmd_matrix(args: &[String]) -> i32 {
         let src = format!("{} {}", a.join(" "), w);
         r.eval(&src, false);
         r.eval(&src, true);
+        // far out in the text: error locations with a very large column / line number must still be formatted
+        if rows % 61 == 0 {
+            r.eval(&format!("{}{}", " ".repeat(70_000), src), false);
+            r.eval(&format!("{}{} \\ {}", "\n".repeat(70_000), src, "c".repeat(70_000)), false);
+        }
     });
     // words outside the table: arities 0..3 with the same pools
     let mut extra = 0usize;
@@ -145,6 +150,10 @@ pub fn cmd_pairs(args: &[String]) -> i32 {
     let mut toks: Vec<String> = dictionary();
     for f in FRAGMENTS { if !toks.contains(&f.to_string()) { toks.push(f.to_string()); } }
     let mut k = 0usize;
+    for f in FRAGMENTS {
+        r.eval(&format!("{}{}", " ".repeat(70_000), f), false);
+        r.eval(&format!("1 {}{} 2", "\t".repeat(66_000), f), true);
+    }
     for a in &toks {
         r.eval(a, false);
         for b in &toks {
